@@ -360,5 +360,11 @@ def rule_h(ctx):
     parity(ctx)
 
 
+def rule_order(ctx):
+    # per-stream FIFO on the wire: a terminal/control frame must not overtake fragments of its own stream
+    from .c05 import rule_a as c05a
+    c05a(ctx)
+
+
 RULES = [('C08.a', rule_a), ('C08.b', rule_b), ('C08.c', rule_c), ('C08.d', rule_d), ('C08.e', rule_e),
-         ('C08.f', rule_f), ('C08.g', rule_g)]
+         ('C08.f', rule_f), ('C08.g', rule_g), ('C05.a', rule_order)]
